@@ -482,7 +482,7 @@ func runC06(r *Run) int {
 	if r.Counter("valid_vector_not_decoded") > 0 || r.Counter("score_panicked") > 0 {
 		r.Inconclusive("%d valid vectors were not decoded / %d queries panicked", r.Counter("valid_vector_not_decoded"), r.Counter("score_panicked"))
 	}
-	r.ProcsChildren(3000, 1, 3, 7, 14)
+	r.ProcsChildren(2000, 1, 3, 7, 14)
 	return r.Finish("rider on the C01-C05 enumerations: all 5,184 v3 base vectors, all 518,400 v3 temporal vectors, the full v3 effective x temporal environmental product and all 518,400 environmental objects without environmental metrics (base/temporal/environmental level of each object), by-value copies of rated objects with overwritten fields and Temporal literals sharing one Base, report score fields of decoded environmental vectors, all 73,629 v2 base/temporal vectors at every admitting decoder, and every v2 (exploitability, adjusted impact) key x 30 (CDP,TD) x temporal states; each (score, severity) pair checked for grid, range, printing and band; distinct non-trivial = distinct (decoder type, score value) pairs observed",
 		true, int64(r.SetSize("score_band")), 1000000, 300, TrustedBase)
 }
